@@ -136,6 +136,8 @@ def country_of(case):
 
 def gen(rng, prop=None):
     n = rng.randint(2, 14)
+    if rng.random() < 0.02:
+        n = rng.randint(40, 90)           # now and then a long history: more fractions than the rows a report template starts with
     country, PERIOD = "us", 365
     if prop == "C05":
         country = rng.choice(["us", "es", "generic", "generic", "jp", "ie"])
